@@ -269,6 +269,26 @@ Theorem C02_narrow_e2e_no_widening : forall V c pol o,
 Proof. exact narrow_e2e_no_widening. Qed.
 Print Assumptions C02_narrow_e2e_no_widening.
 
+(* (1'') stored conditions (`flag = <cond on x>; ...; if flag:`): FunctionScope._add_single_constraint applies the
+   constraint only if every definition of x reaching the branch was current at the condition (the test is read
+   off the source: gen_stale_test); then the object bound through any reaching definition d is kept *)
+Theorem C02_stored_narrow_keeps_value : forall cur cons V c pol o d,
+  In d cur -> member o V = true -> (In d cons -> holds c o = Some pol) -> c02_guard c o = true ->
+  member o (stored_narrow cur cons V c pol) = true.
+Proof. exact stored_narrow_keeps_value. Qed.
+Print Assumptions C02_stored_narrow_keeps_value.
+
+Theorem C02_stale_test_tie : gen_stale_test = model_stale_test.
+Proof. exact stale_test_tie. Qed.
+Print Assumptions C02_stale_test_tie.
+
+Theorem C02_stored_disjoint_rule_refuted :
+  exists cur cons V c pol o d,
+    In d cur /\ member o V = true /\ (In d cons -> holds c o = Some pol) /\ c02_guard c o = true /\
+    member o (stored_narrow_with StaleIfDisjoint cur cons V c pol) = false.
+Proof. exact stored_disjoint_rule_refuted. Qed.
+Print Assumptions C02_stored_disjoint_rule_refuted.
+
 (* (3) always-false / always-true verdicts of get_boolability are right for every member *)
 Theorem C02_always_false_correct : forall V o,
   is_safely_false (boolab_of V) = true -> member o V = true -> truthy o = false.
